@@ -209,9 +209,9 @@ func (c *Coordinator) updateScrapeStatusShards(shards []*shardInfo, status map[u
 // gcTargets delete targets with following conditions
 // 1. not exist in active targets
 // 2. is in_transfer state and had been scraped by other shard
-// 3. is normal state and had been scraped by other shard with lower head series
+// 3. is normal state and had been scraped by other shard with lower head series (the earlier shard wins a tie)
 func (c *Coordinator) gcTargets(changeAbleShards []*shardInfo, active map[uint64]*discovery.SDTargets) {
-	for _, s := range changeAbleShards {
+	for i, s := range changeAbleShards {
 		for h, tar := range s.scraping {
 			// target not exist in active targets
 			if _, exist := active[h]; !exist {
@@ -223,7 +223,7 @@ func (c *Coordinator) gcTargets(changeAbleShards []*shardInfo, active map[uint64
 				continue
 			}
 
-			for _, other := range changeAbleShards {
+			for j, other := range changeAbleShards {
 				if s == other {
 					continue
 				}
@@ -237,7 +237,9 @@ func (c *Coordinator) gcTargets(changeAbleShards []*shardInfo, active map[uint64
 
 					if tar.TargetState == st.TargetState {
 						if (c.option.MaxHeadSeries != 0 && other.runtime.HeadSeries < s.runtime.HeadSeries) ||
-							(c.option.MaxHeadSeries == 0 && other.runtime.ProcessSeries < s.runtime.ProcessSeries) {
+							(c.option.MaxHeadSeries == 0 && other.runtime.ProcessSeries < s.runtime.ProcessSeries) ||
+							(c.option.MaxHeadSeries != 0 && other.runtime.HeadSeries == s.runtime.HeadSeries && j < i) ||
+							(c.option.MaxHeadSeries == 0 && other.runtime.ProcessSeries == s.runtime.ProcessSeries && j < i) {
 							delete(s.scraping, h)
 							break
 						}
